@@ -21,8 +21,8 @@ RULE = ("pairs of models fitted on the same samples (n 20..40): two feature view
         "a sample isolated by A-B, a row whose recalibration exponent leaves [1/4,4], or identical operands.")
 
 
-def fit_model(X, k, metric, n_epochs, disc=None):
-    return umap.UMAP(n_neighbors=k, metric=metric, n_epochs=n_epochs, init="random", random_state=1, disconnection_distance=disc).fit(X)
+def fit_model(X, k, metric, n_epochs, disc=None, mix=1.0):
+    return umap.UMAP(n_neighbors=k, metric=metric, n_epochs=n_epochs, init="random", random_state=1, disconnection_distance=disc, set_op_mix_ratio=mix).fit(X)
 
 
 def gen_pair(rng, npr, force_kind=None):
@@ -32,7 +32,7 @@ def gen_pair(rng, npr, force_kind=None):
     nblob = rng.randint(1, 4)
     centers = npr.normal(size=(nblob, d)) * 3
     X = (centers[npr.randint(0, nblob, size=n)] + npr.normal(size=(n, d))) * scale
-    kind = rng.choice(["views", "views", "metrics", "neighbors", "twins", "noise", "iso_one"])
+    kind = rng.choice(["views", "views", "metrics", "neighbors", "twins", "noise", "iso_one", "mixratio"])
     if force_kind: kind = force_kind
     ka, kb = rng.randint(3, 10), rng.randint(3, 10)
     ma = mb = "euclidean"
@@ -52,7 +52,10 @@ def gen_pair(rng, npr, force_kind=None):
     if kind == "iso_one":      # one sample is an outlier of view A only and is cut off there by a disconnection distance: isolated in exactly one operand
         XA = XA.copy(); Dn = np.sqrt(((XA[:, None] - XA[None]) ** 2).sum(-1)); far = float(np.sort(Dn, axis=1)[:, min(ka, n - 1)].max())
         XA[0] = XA[0] + 50 * far; disc_a = 3 * far
-    return dict(n=n, kind=kind, XA=XA, XB=XB, ka=ka, kb=kb, ma=ma, mb=mb, disc_a=disc_a, n_epochs=rng.randint(1, 4),
+    # operands fitted with off-default graph-stage parameters (the combined model's laws do not depend on how the operands were fitted)
+    mix_a = rng.choice([0.4, 0.0, 0.7]) if kind == "mixratio" else 1.0
+    mix_b = rng.choice([1.0, 0.5]) if kind == "mixratio" else 1.0
+    return dict(n=n, kind=kind, XA=XA, XB=XB, ka=ka, kb=kb, ma=ma, mb=mb, disc_a=disc_a, mix_a=mix_a, mix_b=mix_b, n_epochs=rng.randint(1, 4),
                 w=rng.choice([0.5, 0.2, 0.8, 0.0, 1.0, round(rng.uniform(0.05, 0.95), 3)]))
 
 
@@ -131,8 +134,8 @@ def run_pair(ctx, case, rng, collect=True):
     n = case["n"]
     desc = {k: case[k] for k in ("n", "kind", "ka", "kb", "ma", "mb", "n_epochs", "w", "XA", "XB")}
     try:
-        A = fit_model(case["XA"], case["ka"], case["ma"], case["n_epochs"], case.get("disc_a"))
-        B = fit_model(case["XB"], case["kb"], case["mb"], case["n_epochs"])
+        A = fit_model(case["XA"], case["ka"], case["ma"], case["n_epochs"], case.get("disc_a"), case.get("mix_a", 1.0))
+        B = fit_model(case["XB"], case["kb"], case["mb"], case["n_epochs"], None, case.get("mix_b", 1.0))
     except Exception as e:
         ctx.fail("UMAP.fit:raises", "%s: %s" % (type(e).__name__, e), desc); return None
     ga, gb = canon(A.graph_), canon(B.graph_)
@@ -354,7 +357,7 @@ def run(ctx):
             out = run_pair(ctx, case, FixedOrder(order) if order else rng)
             ctx.count("corpus")
         else:
-            case = gen_pair(rng, npr, "iso_one" if c in (len(corpus), len(corpus) + 1) else None)   # every run has pairs with a sample isolated in one operand only
+            case = gen_pair(rng, npr, "iso_one" if c in (len(corpus), len(corpus) + 1) else "mixratio" if c in (len(corpus) + 2, len(corpus) + 3) else None)   # every run has pairs with a sample isolated in one operand only
             out = run_pair(ctx, case, rng)
         if out is not None:
             terms.append(out[0]); cases.append(out[1])
